@@ -66,6 +66,10 @@ func c09Workspaces() []c09WS {
 				"c.lua": "---@type Derived\nlocal v = {}\nprint(v.fa, v.fb)\n"},
 			open:    []string{"c.lua"},
 			queries: []c09Query{{"definition", "c.lua", 2, 8, ""}, {"definition", "c.lua", 2, 14, ""}, {"hover", "c.lua", 2, 8, ""}, {"completion", "c.lua", 2, 8, "."}}},
+		{name: "w8-table-with-more-members-than-the-hover-preview-shows",
+			files: map[string]string{"a.lua": c09BigTable(), "b.lua": "print(big.f01)\n"},
+			open:  []string{"a.lua", "b.lua"},
+			queries: []c09Query{{"hover", "a.lua", 0, 0, ""}, {"hover", "b.lua", 0, 6, ""}, {"completion", "b.lua", 0, 10, "."}, {"docsymbol", "a.lua", 0, 0, ""}}},
 		{name: "w7-directory-reachable-under-two-names(symlink)",
 			files: map[string]string{"lib/mod.lua": "local M = {}\nM.x = 1\ngsym = 1\nreturn M\n", "alias": drv.SymlinkPrefix + "lib", "zlink": drv.SymlinkPrefix + "lib",
 				"main.lua": "local mod = require(\"mod\")\nprint(mod.x, gsym)\n"},
@@ -73,6 +77,17 @@ func c09Workspaces() []c09WS {
 			queries: []c09Query{{"definition", "main.lua", 0, 21, ""}, {"definition", "main.lua", 1, 10, ""}, {"definition", "main.lua", 1, 14, ""}, {"references", "main.lua", 1, 14, ""},
 				{"wssymbol", "", 0, 0, "gsym"}, {"hover", "main.lua", 0, 21, ""}}},
 	}
+}
+
+// c09BigTable: a global table with 40 members (the hover preview lists the first 30 in name order)
+func c09BigTable() string {
+	var sb strings.Builder
+	sb.WriteString("big = {\n")
+	for k := 40; k >= 1; k-- {
+		fmt.Fprintf(&sb, "  f%02d = %d,\n", k, k)
+	}
+	sb.WriteString("}\n")
+	return sb.String()
 }
 
 func c09Answer(s *drv.Server, q c09Query) string {
@@ -317,7 +332,7 @@ func init() {
 	core.Register(&core.Check{
 		ID:        "C09",
 		Technique: "stateless schedule exploration of the real server under a controlled runtime (iterative context bounding over goroutine start, channel, reflect.Select, mutex, WaitGroup and shared-object method-entry points) crossed with the pool width and every start offset of Go's map iteration; all executions of a workspace must give identical observables",
-		Rule: "closed systems: 7 small workspaces (a directory reachable under three names through symbolic links, duplicate global function, same-base-name modules, files that look at each other during the first pass through a type-2 import frame and an enum block, a global used in three files, symbols sharing a prefix, class annotations across files); each is started (directory scan, first/second/third pass pools), files are opened and definition/hover/references/completion/symbol queries are asked; " +
+		Rule: "closed systems: 8 small workspaces (a table with more members than the hover preview shows, a directory reachable under three names through symbolic links, duplicate global function, same-base-name modules, files that look at each other during the first pass through a type-2 import frame and an enum block, a global used in three files, symbols sharing a prefix, class annotations across files); each is started (directory scan, first/second/third pass pools), files are opened and definition/hover/references/completion/symbol queries are asked; " +
 			"explored: every schedule with <=1 deviation from the default schedule at synchronisation points for NumCPU in {1,2} x all 8 map-iteration start offsets (<=2 deviations at offset 0; thorough: at every offset), plus method-entry granularity with <=1 deviation at offsets {0,1} (thorough: <=2 at offset 0); oracle: the normalised observables equal those of the canonical execution (1 CPU, offset 0, default schedule). " +
 			"states = completed executions; transitions = scheduling decisions; non-trivial = configurations with more than one outcome",
 		Assumptions: []string{
